@@ -33,6 +33,40 @@ class IsBig(Predicate):
         return self.m.a >= 2
 
 
+@dataclass(eq=False)
+class Probe(Predicate):
+    """a user predicate that itself builds (inside a symbolic block of its own) and evaluates a query"""
+    m: object
+
+    def __call__(self):
+        with symbolic_mode():
+            y = let(M, domain=[self.m])
+            inner = an(entity(y, y.a >= 0))
+        return len(list(inner.evaluate())) == 1
+
+
+def clear_registry():
+    for c in Variable._cache_.values():
+        c.clear()
+    Variable._cache_.clear()
+
+
+def build_query(case, objs):
+    kind, quant = case['pred'], case['quant']
+    level = case.get('level', 1)
+    with (rule_mode() if kind in ('infer', 'kw') else symbolic_mode()):
+        x = let(M, domain=objs)
+        if kind == 'infer':
+            return (the if quant == 'the' else infer)(entity(Tag(src=x, level=level), x.a >= 2))
+        if kind == 'kw':
+            # a rule variable given by keyword only, no domain: the registered M instances with that field value
+            m = M(a=level + 1)
+            return (the if quant == 'the' else infer)(entity(Tag(src=m, level=level), m.a >= 2))
+        cond = {'function': lambda: is_big(x), 'class': lambda: IsBig(m=x), 'cmp': lambda: x.a >= 2,
+                'nested': lambda: and_(Probe(m=x), IsBig(m=x))}[kind]()
+        return (the if quant == 'the' else an)(entity(x, cond))
+
+
 def observe(x):
     mode = _symbolic_mode.get()
     m = 'N' if mode is None else ('Q' if mode == EQLMode.Query else 'R')
@@ -113,21 +147,9 @@ def run_ambient(case):
     kind, quant = case['pred'], case['quant']
     res = {}
     for amb in ('none', 'query', 'rule'):
+        clear_registry()
         objs = [M(a) for a in case['values']]
-        with (rule_mode() if kind == 'infer' else symbolic_mode()):
-            x = let(M, domain=objs)
-            if kind == 'function':
-                cond = is_big(x)
-            elif kind == 'class':
-                cond = IsBig(m=x)
-            elif kind == 'cmp':
-                cond = x.a >= 2
-            if kind == 'infer':
-                q = infer(entity(Tag(src=x, level=case.get('level', 1)), x.a >= 2))
-                if quant == 'the':
-                    q = the(entity(Tag(src=x, level=case.get('level', 1)), x.a >= 2))
-            else:
-                q = (the if quant == 'the' else an)(entity(x, cond))
+        q = build_query(case, objs)
         cm = {'none': None, 'query': symbolic_mode, 'rule': rule_mode}[amb]
         try:
             if cm:
@@ -152,11 +174,9 @@ def run_ambient(case):
         if quant == 'the':
             res[sched] = res['none']
             continue
+        clear_registry()
         objs = [M(a) for a in case['values']]
-        with (rule_mode() if kind == 'infer' else symbolic_mode()):
-            x = let(M, domain=objs)
-            cond = is_big(x) if kind == 'function' else IsBig(m=x) if kind == 'class' else (x.a >= 2)
-            q = infer(entity(Tag(src=x, level=case.get('level', 1)), x.a >= 2)) if kind == 'infer' else an(entity(x, cond))
+        q = build_query(case, objs)
 
         def show(v):
             if isinstance(v, M):
